@@ -70,7 +70,8 @@ TReweight ==
     /\ IsEvent("Reweight")
     /\ LET o == Ev IN
        /\ ReweightU(o)
-       /\ Step(Failing(PcOk(pc = "ready") @@ RW_Clauses(o)))
+       \* after run() has returned the caller may keep iterating with sample(): Reweight is also legal from "done"
+       /\ Step(Failing(PcOk(pc \in {"ready", "done"}) @@ RW_Clauses(o)))
 
 TTrain ==
     /\ IsEvent("Train")
@@ -145,7 +146,7 @@ TPosterior ==
            rows == ToRecs(o.rows)
        IN
        /\ UNCHANGED vars
-       /\ Step(Failing([PC_Order |-> pc = "done",
+       /\ Step(Failing([PC_Order |-> pc \in {"done", "ready"} /\ hist # <<>>,
                         PO_EqualLen |-> o.lensEqual,
                         PO_Rows |-> \A i \in DOMAIN rows : Coherent(rows[i]) /\ rows[i] \in Pool,
                         PO_LogwRows |-> o.logwRowsOK,
